@@ -286,7 +286,7 @@ class Ctx:
         return self.tier == "quick"
 
     def pick(self, quick: int, thorough: int) -> int:
-        if self.quick and self.escalated:
+        if self.quick and self.escalated and quick >= 50:  # counts only; small values are depths / sizes, not budgets
             # a function this property's model transcribes was edited since the model was pinned
             # (harness/anchors.py): spend up to 3x the quick budget on correspondence / search
             return max(quick, min(thorough, 3 * quick))
